@@ -89,6 +89,7 @@ type Contract struct {
 	prelets  []letStmt // executed before the call
 	foralls  []qvar    // contract-level universally quantified variables
 	nilParams []string // parameters bound to nil
+	callAsserts []*Clause // label = callee name
 	cases    []*Clause // explicit case split applied to every postcondition
 	asserts  []*Clause // proved at function exit, then available to the postconditions
 	script   []scriptStmt // let / assert / use / generalize in source order
@@ -633,6 +634,16 @@ func (cs *ContractSet) parseFile(pkg, path, src string) error {
 			for _, n := range strings.Fields(strings.ReplaceAll(rest, ",", " ")) {
 				cur.script = append(cur.script, scriptStmt{kind: "generalize", name: n, text: rest})
 			}
+		case "callassert":
+			f := strings.SplitN(rest, " ", 2)
+			if len(f) < 2 {
+				return errf("callassert needs a callee and an expression")
+			}
+			e, vars, err := parseExpr(f[1])
+			if err != nil {
+				return errf("%v", err)
+			}
+			cur.callAsserts = append(cur.callAsserts, &Clause{label: f[0], text: f[1], expr: e, vars: vars, line: ln + 1})
 		case "nil":
 			cur.nilParams = append(cur.nilParams, strings.Fields(rest)...)
 		case "modular":
